@@ -30,6 +30,7 @@ type Explorer struct {
 	Terminal    int64
 	MaxDepth    int64
 	Commits     int64 // states in which some honest replica has committed
+	Starved     int64 // executions abandoned because a leader ran out of client commands (cap)
 	Revisits    int64 // states explored again because they were reached with more deviations left
 	Stopped     atomic.Bool
 	Diverged    atomic.Value // string: first replay divergence (harness error)
@@ -113,6 +114,10 @@ func (e *Explorer) dfs(path []string, w *World, remaining int) {
 		return
 	}
 	e.flush(w, path)
+	if w.Starved {
+		atomic.AddInt64(&e.Starved, 1)
+		return
+	}
 	if !e.visit(w, path, remaining) {
 		return
 	}
